@@ -3,7 +3,7 @@
 p=$(readlink -f $1); shift
 props=${@:-$(seq -f "C%02g" 1 20)}
 d=$(mktemp -d /var/tmp/trypatch.XXXXXX)
-git -C /repo archive HEAD rl_blox | tar -x -C $d
+git -C /repo archive HEAD | tar -x -C $d
 if ! (cd $d && patch -p1 -s < $p >/dev/null 2>&1); then echo "PATCH-DOES-NOT-APPLY $p"; rm -rf $d; exit 3; fi
 cd /verif
 for q in $props; do
